@@ -78,7 +78,7 @@ func verifHarnessC11Refresh() {
 func verifSameCached(doc, m map[string]*cachedSecret) bool {
 	a := mapAll(m, func(name string, cs *cachedSecret) bool {
 		d := doc[name]
-		if d == nil || d.Secret == nil {
+		if d == nil || d.Secret == nil || cs == nil || cs.Secret == nil {
 			return false
 		}
 		return and(d.Secret.Version == cs.Secret.Version, bytesEq(d.Secret.Value, cs.Secret.Value), d.LastAccess == cs.LastAccess, !d.Declared)
